@@ -442,6 +442,30 @@ func (fr *Frame) havocLoc(env *Env, x Expr, st *State, reach *Term) error {
 			return nil
 		}
 	}
+	// mapof(m): the contents (keys and values) of the map object m
+	if call, ok := x.(*ECall); ok {
+		if id, ok := call.Fun.(*EIdent); ok && id.Name == "mapof" && len(call.Args) == 1 {
+			m, err := env.eval(call.Args[0])
+			if err != nil {
+				return err
+			}
+			mi, err := c.mapInfo(m.Typ)
+			if err != nil {
+				return err
+			}
+			d := c.get(st, mi.dom, mi.domSort)
+			_, inner, _ := arrParts(mi.domSort)
+			c.set(st, mi.dom, tStore(d, m.T, c.sc.freshConst("mod_dom", inner)))
+			vt := m.Typ.Underlying().(*types.Map).Elem()
+			for _, l := range leavesOf(vt) {
+				key, ks := c.mapValKey(m.Typ, l)
+				cur := c.get(st, key, ks)
+				_, in2, _ := arrParts(ks)
+				c.set(st, key, tStore(cur, m.T, c.sc.freshConst("mod_val", in2)))
+			}
+			return nil
+		}
+	}
 	// x.M() pure method: havoc that abstract field at x only;  T.M: whole abstract field
 	if call, ok := x.(*ECall); ok {
 		if sel, ok := call.Fun.(*ESel); ok {
@@ -751,6 +775,7 @@ func (fr *Frame) execBuiltin(instr ssa.Instruction, b *ssa.Builtin, call *ssa.Ca
 		fr.unsupported(instr.Pos(), "copy()")
 		return c.freshVal("copy", rt)
 	case "delete":
+		fr.guardCheck(instr, args[0], true, st, reach)
 		if err := c.mapDelete(st, args[0].T, call.Args[0].Type(), args[1].T); err != nil {
 			fr.unsupported(instr.Pos(), "delete: %v", err)
 		}
